@@ -67,8 +67,16 @@ class LibRun:
         e.add_stub(r'as Clone>::clone$', lambda en, st, fr, callee, args, R: R(en.deref(st, args[0])))
         def from_elem(en, st, fr, callee, args, R):
             self.n += 1
-            return R(Slice(BitVec(f'vecalloc!{self.n}', 64), args[1].t, 'u8'))
+            base = BitVec(f'vecalloc!{self.n}', 64); rec(st, 'alloc', [args[0], args[1], base])
+            return R(Slice(base, args[1].t, 'u8'))
         e.add_stub(r'^(std|alloc)::vec::from_elem$', from_elem)
+        def vec_resize(en, st, fr, callee, args, R):
+            # Vec::<u8>::resize(&mut v, new_len, value): same allocation (or a moved copy of it) - the first min(old, new) bytes are RETAINED; recorded as an event,
+            # the slice keeps its base so that 'freshly allocated' obligations see that it is the old buffer
+            r = args[0]; old_ = en.get(st, r.frame, r.local, r.proj); rec(st, 'resize', [old_, args[1], args[2]])
+            if not isinstance(old_, Slice): return NotImplemented
+            en.put(st, r.frame, r.local, r.proj, Slice(old_.base, args[1].t, old_.ety)); return R(Agg([], '()'))
+        e.add_stub(r'Vec::<u8>::resize$|Vec::resize$', vec_resize)
         e.add_stub(r'^(std|core)::cmp::max$|Ord>::max$', lambda en, st, fr, callee, args, R: R(V(If(UGE(args[0].t, args[1].t), args[0].t, args[1].t), args[0].ty)))
         e.add_stub(r'Box::<.*>::new$|^Box::new$|boxed::Box::new$', lambda en, st, fr, callee, args, R: R(args[0]))
     def run(self, vm, meth, mem=None, extra_args=None, self_obj=None, pre=()):
